@@ -4,8 +4,9 @@ from .. import nodegen
 from ._nodecommon import *
 
 ID = "C15"
-LEAN_MODULES = ["VpnCloud.Proofs.C15"]
-THEOREMS = ["VpnCloud.Proofs.C15." + n for n in ("interval_safe", "keepalive_default_safe", "backoff_bounded")]
+LEAN_MODULES = ["VpnCloud.Proofs.C15", "VpnCloud.Proofs.C15Node"]
+THEOREMS = ["VpnCloud.Proofs.C15." + n for n in ("interval_safe", "keepalive_default_safe", "backoff_bounded")] + [
+            "VpnCloud.Proofs.C15Node.housekeep_removes_expired", "VpnCloud.Proofs.C15Node.expired_peer_removed"]
 RULE = ("suite node: announcement interval through a real node's housekeeping for own settings (peer timeout, keepalive) from a grid incl. 0, 1, 59, 60, 119, 120, 121, 300, 65535 x advertised "
         "timeouts (all 65536 in thorough, boundary values and a sample in quick); heterogeneous meshes run for 3 x the largest timeout; silence injection (all datagrams of one node dropped from time t); "
         "back-off of a configured unreachable peer over 48 h (thorough) / 3 h (quick) of simulated time; distinct non-trivial = distinct (op, #datagrams out, #interface writes, #peers, #pending, mutation kind)")
